@@ -76,6 +76,12 @@ type script struct {
 	// LingerMs: if a Read is still blocked after Close (worker inside roundTrip's retry sleep),
 	// keep watching the server that long for requests issued after Close had returned
 	LingerMs int `json:"linger_ms"`
+	// Lag: pairs (read index, count): before its read no. `index` the reader waits until the
+	// server has sent `count` non-empty responses (or everything there is to send) — the
+	// application lags behind the poller, responses pile up in the queue / carry-over buffer
+	Lag [][2]int `json:"lag,omitempty"`
+	// NoFlush: keep to the scripted response sizes after the writer has finished
+	NoFlush bool `json:"no_flush,omitempty"`
 }
 
 type session struct {
@@ -102,6 +108,7 @@ type session struct {
 	reqSeen      chan int
 	oracle       []string
 	writerFin    int32
+	nonEmpty     int // non-empty 200 responses sent
 	postWrite    string
 	postRead     string
 	postReadData int
@@ -197,7 +204,7 @@ func (sv *server) ServeHTTP(w http.ResponseWriter, r *http.Request) {
 	if len(s.sc.Resp) > 0 {
 		sz = s.sc.Resp[k%len(s.sc.Resp)]
 	}
-	if atomic.LoadInt32(&s.writerFin) != 0 {
+	if atomic.LoadInt32(&s.writerFin) != 0 && !s.sc.NoFlush {
 		sz = 65536 // the application has finished writing: deliver what is left without idle polls
 	}
 	if sz > len(s.down)-s.downOff {
@@ -206,6 +213,9 @@ func (sv *server) ServeHTTP(w http.ResponseWriter, r *http.Request) {
 	out := s.down[s.downOff : s.downOff+sz]
 	s.downOff += sz
 	s.respBodies.Write(out)
+	if len(out) > 0 {
+		s.nonEmpty++
+	}
 	s.log = append(s.log, "rs:ok:"+vlib.Hex(out))
 	s.mu.Unlock()
 	w.Header().Set("Content-Length", strconv.Itoa(len(out)))
@@ -280,6 +290,17 @@ func runSession(sv *server, cf base.ClientFactory, s *session) {
 		defer close(readerDone)
 		buf := make([]byte, 200000)
 		for i := 0; sc.Reads < 0 || i < sc.Reads; i++ {
+			for _, lg := range sc.Lag {
+				if lg[0] == i {
+					// not reading: let responses pile up (bounded wait, only a pacing device)
+					waitFor(5*time.Second, func() bool {
+						s.mu.Lock()
+						defer s.mu.Unlock()
+						return s.nonEmpty >= lg[1] || s.downOff >= len(s.down) || !s.allOK || s.closedAt >= 0
+					})
+					time.Sleep(500 * time.Microsecond) // the response just logged travels to the worker
+				}
+			}
 			n := 4096
 			if len(sc.ReadSizes) > 0 {
 				n = sc.ReadSizes[i%len(sc.ReadSizes)]
@@ -702,6 +723,21 @@ func genScript(rng *vlib.Rng, i int) script {
 	if rng.Intn(4) == 0 {
 		sc.ServerLag = rng.Range(50, 1500)
 	}
+	if rng.Intn(3) == 0 && sc.Down > 1 {
+		// the reader lags: several non-empty responses (distinct sizes) are fetched before it reads
+		sc.Resp = [][]int{{100, 7, 3000}, {65536, 1, 20000}, {5, 60000, 9, 300}, {1000, 999, 998}}[rng.Intn(4)]
+		sc.NoFlush = true
+		if sc.Down > 140000 {
+			sc.Down = 140000
+		}
+		sc.Lag = [][2]int{{0, rng.Range(2, 5)}}
+		if rng.Bool() {
+			sc.Lag = append(sc.Lag, [2]int{rng.Range(1, 4), rng.Range(4, 8)})
+		}
+		for len(sc.Writes) < 12 {
+			sc.Writes = append(sc.Writes, vlib.Pick(rng, smallSizes))
+		}
+	}
 	return sc
 }
 
@@ -726,6 +762,20 @@ func closeEverywhere() []script {
 		out = append(out, script{Name: fmt.Sprintf("single-write-%d", sz), Writes: []int{sz}, ReadSizes: []int{70000}, Reads: -1,
 			Resp: []int{0, 65536}, Down: 70000, FailAt: -1, Close: "drained"})
 	}
+	small := make([]int, 14)
+	for i := range small {
+		small[i] = 50 + i
+	}
+	out = append(out,
+		script{Name: "lag-large-then-small", Writes: small, ReadSizes: []int{7, 70000, 1000, 65536, 3}, Reads: -1,
+			Resp: []int{60000, 10, 3000, 65536, 1, 500}, Down: 129047, FailAt: -1, Close: "drained", Lag: [][2]int{{0, 6}}, NoFlush: true},
+		script{Name: "lag-small-then-large", Writes: small, ReadSizes: []int{70000}, Reads: -1,
+			Resp: []int{10, 60000, 1, 65536, 200}, Down: 125747, FailAt: -1, Close: "drained", Lag: [][2]int{{0, 5}}, NoFlush: true},
+		script{Name: "lag-carry-over", Writes: small, ReadSizes: []int{5, 3, 64}, Reads: -1,
+			Resp: []int{300, 20, 150, 7, 90, 33}, Down: 600, FailAt: -1, Close: "drained", Lag: [][2]int{{0, 2}, {3, 4}, {9, 6}}, NoFlush: true},
+		script{Name: "lag-carry-over-large", Writes: small, ReadSizes: []int{1000, 50000, 9}, Reads: -1,
+			Resp: []int{40000, 65536, 100, 30000}, Down: 135636, FailAt: -1, Close: "drained", Lag: [][2]int{{0, 2}, {1, 3}, {2, 4}}, NoFlush: true},
+	)
 	out = append(out,
 		script{Name: "three-max-bodies", Writes: []int{196608, 196608, 1}, ReadSizes: []int{4096}, Reads: -1, Resp: []int{65536}, Down: 200000, FailAt: -1, Close: "drained"},
 		script{Name: "fail-at-2", Writes: []int{100, 100, 100, 100}, ReadSizes: []int{4096}, Reads: -1, Resp: []int{10}, Down: 100, FailAt: 2, FailKind: "fail", Close: "after-fail"},
@@ -774,9 +824,25 @@ func raceRun(r *vlib.Run, scripts []script) {
 	case <-time.After(300 * time.Second):
 		c.Process.Kill()
 	}
-	msg := errb.String()
-	if i := strings.Index(msg, "WARNING: DATA RACE"); i >= 0 {
-		msg = msg[i:]
+	// The close protocol of meekConn is "the worker closes workerWrChan, a concurrent Write's send
+	// panics and recovers" (enqueueWrite): the race detector reports that pair by policy; it is
+	// the documented design, not a memory race on data the property speaks about.  Every other
+	// report is a violation.
+	designed, other := 0, ""
+	for _, rep := range strings.Split(errb.String(), "==================") {
+		if !strings.Contains(rep, "WARNING: DATA RACE") {
+			continue
+		}
+		if strings.Contains(rep, "runtime.closechan") && strings.Contains(rep, "enqueueWrite") {
+			designed++
+			continue
+		}
+		if other == "" {
+			other = rep
+		}
+	}
+	if other != "" {
+		msg := other[strings.Index(other, "WARNING: DATA RACE"):]
 		if len(msg) > 1500 {
 			msg = msg[:1500]
 		}
@@ -789,7 +855,10 @@ func raceRun(r *vlib.Run, scripts []script) {
 		r.Violate("data-race", "impl-oracle", "the race detector reports a data race in the meek_lite client: "+msg, list[last])
 		return
 	}
-	r.Notes["race_build"] = fmt.Sprintf("%d sessions re-run in a -race build of this harness: no race report (%s)", len(list), strings.TrimSpace(lastLine(out.String())))
+	if designed > 0 {
+		r.Notes["race_close_vs_send"] = fmt.Sprintf("%d reports of close(workerWrChan) concurrent with the send in enqueueWrite (the recovered-panic close protocol; not counted)", designed)
+	}
+	r.Notes["race_build"] = fmt.Sprintf("%d sessions re-run in a -race build of this harness: no other race report (%s)", len(list), strings.TrimSpace(lastLine(out.String())))
 }
 
 func lastLine(s string) string {
